@@ -92,6 +92,19 @@ impl GraphBlock {
     }
 
     pub fn to_markdown(&self, options: &MarkdownOptions) -> String {
+        self.to_markdown_with(options, false)
+    }
+
+    fn is_same_kind_of_list(&self, other: &GraphBlock) -> bool {
+        match (self, other) {
+            (GraphBlock::BulletList(_), GraphBlock::BulletList(_)) => true,
+            (GraphBlock::OrderedList(_), GraphBlock::OrderedList(_)) => true,
+            _ => false,
+        }
+    }
+
+    // `other_marker`: write a list with '*' instead of '-', or '1)' instead of '1.'
+    fn to_markdown_with(&self, options: &MarkdownOptions, other_marker: bool) -> String {
         match self {
             GraphBlock::Plain(inlines) => format!("{}\n", inlines_to_markdown(inlines, options)),
             GraphBlock::Para(inlines) => format!("{}\n", inlines_to_markdown(inlines, options)),
@@ -135,6 +148,7 @@ impl GraphBlock {
                     left_pad_and_prefix_num(
                         &blocks_to_markdown_and(item, self.is_sparce_list(), options),
                         n + 1,
+                        if other_marker { ')' } else { '.' },
                     )
                 })
                 .collect::<Vec<String>>()
@@ -145,10 +159,14 @@ impl GraphBlock {
                     let text = blocks_to_markdown_and(item, self.is_sparce_list(), options);
                     // '- ---' is a rule, not an item that holds a rule: a rule right after the
                     // bullet is written with another character
-                    if let Some(GraphBlock::HorizontalRule) = item.first() {
-                        left_pad_and_prefix(&text.replacen(&"-".repeat(72), &"*".repeat(72), 1))
+                    let bullet = if other_marker { '*' } else { '-' };
+                    if let (Some(GraphBlock::HorizontalRule), '-') = (item.first(), bullet) {
+                        left_pad_and_prefix(
+                            &text.replacen(&"-".repeat(72), &"*".repeat(72), 1),
+                            bullet,
+                        )
                     } else {
-                        left_pad_and_prefix(&text)
+                        left_pad_and_prefix(&text, bullet)
                     }
                 })
                 .collect::<Vec<String>>()
@@ -408,13 +426,13 @@ impl GraphInline {
     }
 }
 
-fn left_pad_and_prefix(text: &str) -> String {
+fn left_pad_and_prefix(text: &str, bullet: char) -> String {
     let mut result = String::new();
     for (n, line) in text.lines().enumerate() {
         if line.is_empty() {
             result.push_str("\n");
         } else if n == 0 {
-            result.push_str(&format!("- {}\n", line));
+            result.push_str(&format!("{} {}\n", bullet, line));
         } else {
             result.push_str(&format!("  {}\n", line));
         }
@@ -423,8 +441,8 @@ fn left_pad_and_prefix(text: &str) -> String {
     result
 }
 
-fn left_pad_and_prefix_num(text: &str, num: usize) -> String {
-    let prefix = format!("{}.{}", num, if num > 9 { "" } else { " " });
+fn left_pad_and_prefix_num(text: &str, num: usize, delimiter: char) -> String {
+    let prefix = format!("{}{}{}", num, delimiter, if num > 9 { "" } else { " " });
     let mut result = String::new();
     for (n, line) in text.lines().enumerate() {
         if line.is_empty() {
@@ -599,28 +617,36 @@ pub fn inlines_to_markdown(content: &GraphInlines, options: &MarkdownOptions) ->
         .join("")
 }
 
-pub fn blocks_to_markdown_and(blocks: &Blocks, sparce: bool, options: &MarkdownOptions) -> String {
+// Two lists of the same kind that follow each other directly would be read back as one list:
+// every second one of such a run is written with the other marker ('*', '1)').
+fn each_block_to_markdown(blocks: &Blocks, options: &MarkdownOptions) -> Vec<String> {
+    // the last block that left something in the text (a list of empty items leaves nothing)
+    let mut written: Option<(&GraphBlock, bool)> = None;
     blocks
         .iter()
-        .map(|block| block.to_markdown(options))
-        .collect::<Vec<String>>()
-        .join(if sparce { "\n" } else { "" })
+        .map(|block| {
+            let other_marker = written
+                .map(|(previous, marker)| previous.is_same_kind_of_list(block) && !marker)
+                .unwrap_or(false);
+            let text = block.to_markdown_with(options, other_marker);
+            if !text.trim().is_empty() {
+                written = Some((block, other_marker));
+            }
+            text
+        })
+        .collect()
+}
+
+pub fn blocks_to_markdown_and(blocks: &Blocks, sparce: bool, options: &MarkdownOptions) -> String {
+    each_block_to_markdown(blocks, options).join(if sparce { "\n" } else { "" })
 }
 
 pub fn blocks_to_markdown(blocks: &Blocks, options: &MarkdownOptions) -> String {
-    blocks
-        .iter()
-        .map(|block| block.to_markdown(options))
-        .collect::<Vec<String>>()
-        .join("")
+    each_block_to_markdown(blocks, options).join("")
 }
 
 pub fn blocks_to_markdown_sparce(blocks: &Blocks, options: &MarkdownOptions) -> String {
-    blocks
-        .iter()
-        .map(|block| block.to_markdown(options))
-        .collect::<Vec<String>>()
-        .join("\n")
+    each_block_to_markdown(blocks, options).join("\n")
 }
 
 pub fn to_graph_inlines(content: &DocumentInlines, relative_to: &str) -> Vec<GraphInline> {
